@@ -35,10 +35,39 @@ def run(ck, F):
     B = M.Body(fb)
     # the field list being filled: the `&mut Vec<Field>` parameter
     flp = [l for l in range(1, B.arg_count + 1) if "Vec<model::field::Field>" in B.local_ty(l)]
-    if len(flp) != 1:
-        ck.undecided("R1", "anchor", fb["span"], "the extension importer does not have exactly one Vec<Field> parameter")
+    returns_list = "Vec<model::field::Field>" in B.local_ty(0)
+    if len(flp) != 1 and not (not flp and returns_list):
+        ck.undecided("R1", "anchor", fb["span"], "the extension importer neither has exactly one Vec<Field> parameter nor returns the field list")
         return
-    FL = flp[0]
+    FL = flp[0] if flp else None
+
+    def _root_local(op):
+        """the local an operand is (a reference to), through plain moves and borrows"""
+        if op.get("k") not in ("copy", "move"):
+            return None
+        l, proj = op["p"]["l"], [x for x in (op["p"].get("proj") or []) if x != "deref"]
+        for _ in range(10):
+            if proj:
+                return None
+            ds = B.defs().get(l, [])
+            nxt = None
+            if len(ds) == 1 and ds[0][0] == "assign" and ds[0][3]["k"] in ("ref", "use"):
+                rv = ds[0][3]
+                pl = rv["p"] if rv["k"] == "ref" else (rv["op"].get("p") if rv["op"].get("k") in ("copy", "move") else None)
+                if pl is not None:
+                    nxt, proj = pl["l"], [x for x in (pl.get("proj") or []) if x != "deref"]
+            if nxt is None:
+                return l
+            l = nxt
+        return l
+
+    def is_field_list(os_, op):
+        """the operand is the field list being filled: the `&mut Vec<Field>` parameter, or (when the function returns the list) a
+        local Vec<Field> of its own"""
+        if FL is not None:
+            return bool(os_) and all(o.kind == "arg" and o.local == FL for o in os_)
+        r = _root_local(op)
+        return r is not None and not B.is_arg(r) and B.local_ty(r).replace("alloc::", "std::") == "std::vec::Vec<model::field::Field>"
     ext_short = EXT.rsplit("::", 1)[-1]
     cc_short = CC.rsplit("::", 1)[-1] if CC else "?"
     copies = []
@@ -46,7 +75,7 @@ def run(ck, F):
         d = M.Body.callee_decl(t) or ""
         if d.endswith(("clone::Clone::clone_from",)) or d.endswith(("Vec::<T, A>::extend", "iter::Extend::extend")) or d.endswith("extend_from_slice"):
             dst = M.trace(B, t["args"][0], ())
-            if dst and all(o.kind == "arg" and o.local == FL for o in dst):
+            if is_field_list(dst, t["args"][0]):
                 src = M.trace(B, t["args"][1], M.IDENTITY_CALLS + ("[T]>::iter", "Vec::<T, A>::iter", "iter::Iterator::cloned", "iter::Iterator::copied",
                                                                      "IntoIterator::into_iter", "Vec::<T, A>::as_slice", "[T]>::to_vec"))
                 from_base = bool(src) and all("fields" in o.fields() for o in src)
@@ -58,7 +87,7 @@ def run(ck, F):
         if any(d.endswith(a) for a in APPENDERS) and (bb, t) not in copies:
             for a in t["args"]:
                 os_ = M.trace(B, a, ())
-                if os_ and all(o.kind == "arg" and o.local == FL for o in os_):
+                if is_field_list(os_, a):
                     appends.append((bb, t))
                     break
     if len(copies) != 1:
